@@ -497,3 +497,172 @@ Section Subst.
       rewrite obj_psi. unfold vinv. ring.
   Qed.
 End Subst.
+
+(* ---- column permutation ------------------------------------------------------------- *)
+
+Lemma qsum_perm l l' : Permutation l l' -> qsum l == qsum l'.
+Proof.
+  induction 1 as [|a l l' _ IH|a b l|l l' l'' _ IH1 _ IH2]; simpl; rarith.
+  - reflexivity.
+  - rewrite IH. reflexivity.
+  - ring.
+  - rewrite IH1. exact IH2.
+Qed.
+
+Lemma is_perm_spec n p : is_perm n p = true -> length p = n /\ NoDup p /\ Permutation p (seq 0 n).
+Proof.
+  intros Hp. unfold is_perm in Hp. apply andb_true_iff in Hp. destruct Hp as [Hp Hnd]. apply andb_true_iff in Hp. destruct Hp as [Hl Hr].
+  apply Nat.eqb_eq in Hl. rewrite forallb_forall in Hr.
+  assert (ND : NoDup p).
+  { clear - Hnd. induction p as [|a p IH]; [constructor|]. simpl in Hnd. apply andb_true_iff in Hnd. destruct Hnd as [H1 H2].
+    constructor; [|apply IH; exact H2]. intros C. apply negb_true_iff in H1.
+    assert (G : forall l, In a l -> mem_nat a l = true).
+    { induction l as [|b l IHl]; intros Hin; [destruct Hin|]. simpl. destruct Hin as [->|Hin]; [rewrite Nat.eqb_refl; reflexivity|].
+      rewrite (IHl Hin). apply orb_true_r. }
+    rewrite (G p C) in H1. discriminate. }
+  split; [exact Hl|]. split; [exact ND|].
+  apply NoDup_Permutation_bis; [exact ND| rewrite seq_length; lia|].
+  intros a Ha. apply in_seq. pose proof (Hr a Ha) as L. apply Nat.ltb_lt in L. lia.
+Qed.
+
+Lemma map_nth_seq {A} (l : list A) d : map (fun k => nth k l d) (seq 0 (length l)) = l.
+Proof.
+  induction l as [|a l IH] using rev_ind; [reflexivity|].
+  rewrite app_length. simpl. rewrite Nat.add_1_r, seq_S, map_app. simpl.
+  rewrite app_nth2 by lia. rewrite Nat.sub_diag. simpl. f_equal.
+  rewrite <- IH at 2. apply map_ext_in. intros k Hk. apply in_seq in Hk. rewrite app_nth1 by lia. reflexivity.
+Qed.
+
+(* reindexing a sum along a permutation *)
+Lemma sumn_reindex n p (f : nat -> Q) : is_perm n p = true ->
+  sumn n (fun k => f (nth k p O)) == sumn n f.
+Proof.
+  intros Hp. destruct (is_perm_spec n p Hp) as (Hl & _ & Pm).
+  rewrite <- (qsum_map_seq n (fun k => f (nth k p O))), <- (qsum_map_seq n f).
+  rewrite <- (map_map (fun k => nth k p O) f). rewrite <- Hl at 1. rewrite map_nth_seq.
+  apply qsum_perm. apply Permutation_map. exact Pm.
+Qed.
+
+Lemma index_of_nth p : NoDup p -> forall k, (k < length p)%nat -> index_of (nth k p O) p = k.
+Proof.
+  induction 1 as [|a p Hna _ IH]; intros k Hk; simpl in Hk; [lia|].
+  destruct k as [|k]; simpl; [rewrite Nat.eqb_refl; reflexivity|].
+  destruct (Nat.eqb_spec a (nth k p O)) as [E|_].
+  - exfalso. apply Hna. rewrite E. apply nth_In. lia.
+  - rewrite IH by lia. reflexivity.
+Qed.
+
+Lemma nth_index_of p j : In j p -> nth (index_of j p) p O = j /\ (index_of j p < length p)%nat.
+Proof.
+  induction p as [|a p IH]; intros Hin; [destruct Hin|]. simpl.
+  destruct (Nat.eqb_spec a j) as [->|Hne]; [split; [reflexivity|lia]|].
+  destruct Hin as [E|Hin]; [contradiction|]. destruct (IH Hin) as [H1 H2]. split; [exact H1|lia].
+Qed.
+
+Lemma coefAt_perm_ent n p e k : is_perm n p = true -> ind_lt n e = true -> (k < n)%nat ->
+  coefAt (perm_ent p e) k == coefAt e (nth k p O).
+Proof.
+  intros Hp. destruct (is_perm_spec n p Hp) as (Hl & ND & Pm).
+  induction e as [|[j v] e IH]; intros He Hk; simpl; [reflexivity|].
+  simpl in He. apply andb_true_iff in He. destruct He as [Hj He]. apply Nat.ltb_lt in Hj.
+  rewrite (IH He Hk).
+  assert (Hin : In j p) by (apply (Permutation_in _ (Permutation_sym Pm)); apply in_seq; lia).
+  destruct (nth_index_of p j Hin) as [N1 N2].
+  destruct (Nat.eqb_spec (index_of j p) k) as [E|Hne]; destruct (Nat.eqb_spec j (nth k p O)) as [E'|Hne']; try reflexivity.
+  - exfalso. apply Hne'. rewrite <- E. symmetry. exact N1.
+  - exfalso. apply Hne. rewrite E'. apply index_of_nth; [exact ND|lia].
+Qed.
+
+Section PermCols.
+  Variables (M : Q) (p : list nat) (U U' : ulp).
+  Hypothesis S : perm_cols p U = Some U'.
+  Let n := un U.
+  Definition pc_phi (x : nat -> Q) (k : nat) : Q := x (nth k p O).
+  Definition pc_psi (x' : nat -> Q) (j : nat) : Q := x' (index_of j p).
+
+  Lemma pc_parts : is_perm n p = true /\ wf_ulp U = true /\
+    U' = {| u_max := u_max U; u_cols := map (fun k => nth k (u_cols U) ducol) p;
+            u_rows := map (fun r => {| ur_sense := ur_sense r; ur_rhs := ur_rhs r; ur_range := ur_range r;
+                                       ur_ent := perm_ent p (ur_ent r) |}) (u_rows U) |}.
+  Proof.
+    unfold perm_cols in S. destruct (is_perm (un U) p && wf_ulp U) eqn:G; [|discriminate].
+    apply andb_true_iff in G. destruct G as [G1 G2]. inversion S. repeat split; assumption.
+  Qed.
+
+  Lemma pc_un : un U' = n.
+  Proof.
+    destruct pc_parts as (Hp & _ & ->). destruct (is_perm_spec n p Hp) as (Hl & _). unfold un. simpl. rewrite map_length. exact Hl.
+  Qed.
+
+  Lemma pc_col k : (k < n)%nat -> ucolj U' k = ucolj U (nth k p O).
+  Proof.
+    intros Hk. destruct pc_parts as (Hp & _ & ->). destruct (is_perm_spec n p Hp) as (Hl & _).
+    unfold ucolj. simpl. rewrite (nth_map_lt (fun k0 => nth k0 (u_cols U) ducol) p k O ducol) by lia. reflexivity.
+  Qed.
+
+  Lemma pc_ract x r : ind_lt n (ur_ent r) = true ->
+    ract n {| ur_sense := ur_sense r; ur_rhs := ur_rhs r; ur_range := ur_range r; ur_ent := perm_ent p (ur_ent r) |} (pc_phi x)
+    == ract n r x.
+  Proof.
+    intros Hw. destruct pc_parts as (Hp & _). unfold ract. cbn [ur_ent].
+    rewrite <- (sumn_reindex n p (fun j => coefAt (ur_ent r) j * x j) Hp).
+    apply sumn_ext. intros k Hk. rewrite (coefAt_perm_ent n p _ k Hp Hw Hk). unfold pc_phi. reflexivity.
+  Qed.
+
+  Lemma pc_feasible x : ufeasible M U x <-> ufeasible M U' (pc_phi x).
+  Proof.
+    destruct pc_parts as (Hp & Wf & EU). rewrite !ufeasible_Forall. rewrite pc_un. fold n.
+    assert (ER : Forall (row_sat M n x) (u_rows U) <-> Forall (row_sat M n (pc_phi x)) (u_rows U')).
+    { rewrite EU. cbn [u_rows]. rewrite Forall_map. unfold wf_ulp in Wf. rewrite forallb_forall in Wf. fold n in Wf.
+      split; intros H; rewrite Forall_forall in *; intros r Hr; specialize (H r Hr);
+        unfold row_sat in *; cbn [ur_sense ur_rhs ur_range] in *;
+        pose proof (pc_ract x r (Wf r Hr)) as E; destruct (ur_sense r); rewrite ?E in *; try exact H;
+        rewrite <- ?E; exact H. }
+    assert (EB : ubounds_ok M U x <-> ubounds_ok M U' (pc_phi x)).
+    { unfold ubounds_ok. rewrite pc_un. fold n. destruct (is_perm_spec n p Hp) as (Hl & ND & Pm). split; intros H.
+      - intros k Hk. rewrite (pc_col k Hk). unfold pc_phi. apply H.
+        assert (Hin : In (nth k p O) (seq 0 n)) by (apply (Permutation_in _ Pm); apply nth_In; lia).
+        apply in_seq in Hin. lia.
+      - intros j Hj. assert (Hin : In j p) by (apply (Permutation_in _ (Permutation_sym Pm)); apply in_seq; lia).
+        destruct (nth_index_of p j Hin) as [N1 N2]. rewrite Hl in N2.
+        specialize (H (index_of j p) N2). rewrite (pc_col _ N2) in H. unfold pc_phi in H. rewrite N1 in H. exact H. }
+    rewrite ER, EB. reflexivity.
+  Qed.
+
+  Lemma pc_obj x : uobj U' (pc_phi x) == uobj U x.
+  Proof.
+    destruct pc_parts as (Hp & _). unfold uobj. rewrite pc_un. fold n.
+    rewrite <- (sumn_reindex n p (fun j => uc_obj (ucolj U j) * x j) Hp).
+    apply sumn_ext. intros k Hk. rewrite (pc_col k Hk). unfold pc_phi. reflexivity.
+  Qed.
+
+  Lemma pc_phi_psi x' k : (k < n)%nat -> pc_phi (pc_psi x') k = x' k.
+  Proof.
+    intros Hk. destruct pc_parts as (Hp & _). destruct (is_perm_spec n p Hp) as (Hl & ND & _).
+    unfold pc_phi, pc_psi. rewrite index_of_nth by (try exact ND; lia). reflexivity.
+  Qed.
+
+  Lemma ufeasible_ext_lt x y : (forall k, (k < un U')%nat -> x k == y k) -> ufeasible M U' x -> ufeasible M U' y.
+  Proof.
+    intros H [F1 F2]. split.
+    - intros i Hi. specialize (F1 i Hi). unfold row_ok in *.
+      assert (E : uact U' x i == uact U' y i) by (unfold uact; apply sumn_ext; intros j Hj; rewrite (H j Hj); reflexivity).
+      destruct (ur_sense (urowi U' i)); rewrite <- E; exact F1.
+    - intros j Hj. specialize (F2 j Hj). rewrite <- (H j Hj). exact F2.
+  Qed.
+
+  Theorem perm_cols_equiv : lp_equiv M U U' pc_phi pc_psi false 0.
+  Proof.
+    constructor.
+    - destruct pc_parts as (_ & _ & ->). simpl. destruct (u_max U); reflexivity.
+    - intros x F. split; [apply pc_feasible; exact F|]. rewrite pc_obj. unfold vmap. ring.
+    - intros x' F.
+      assert (F2 : ufeasible M U' (pc_phi (pc_psi x'))).
+      { apply (ufeasible_ext_lt x'); [|exact F]. intros k Hk. rewrite pc_un in Hk. rewrite pc_phi_psi by exact Hk. reflexivity. }
+      split; [apply pc_feasible; exact F2|].
+      rewrite <- pc_obj. unfold vinv.
+      assert (E : uobj U' (pc_phi (pc_psi x')) == uobj U' x').
+      { unfold uobj. apply sumn_ext. intros k Hk. rewrite pc_un in Hk. rewrite pc_phi_psi by exact Hk. reflexivity. }
+      rewrite E. ring.
+  Qed.
+End PermCols.
